@@ -31,6 +31,8 @@ type kindWalker struct {
 	kind  int64
 	pkg   string
 	env   map[ssa.Value]kval
+	// calls whose result is a non-zero value of interest (e.g. rtTypePtr)
+	symCalls map[string]bool
 }
 
 func (w *kindWalker) val(v ssa.Value, depth int) kval {
@@ -68,6 +70,9 @@ func (w *kindWalker) val(v ssa.Value, depth int) kval {
 		}
 		if f := x.Call.StaticCallee(); f != nil && len(x.Call.Args) == 0 && fnPkgPath(f) == w.pkg {
 			return kval{sym: f.Name() + "()"}
+		}
+		if f := x.Call.StaticCallee(); f != nil && w.symCalls[f.Name()] {
+			return kval{sym: f.Name() + "(..)"}
 		}
 		if isBuiltin(x, "len") {
 			if at, ok := arrayLenOf(x.Call.Args[0]); ok {
